@@ -384,14 +384,14 @@ Section Suite.
   Definition str_cat (l : list Z) : bytes := flat_map to_string l.
 
   (* s_k = r_k + c * x_k over an index list *)
-  Fixpoint resp_idx (rs msgs : list Z) (ch : Z) (U : list N) : outcome (list Z) :=
+  Fixpoint resp_idx (rs msgs : list Z) (ch : Z) (U : list N) {struct U} : outcome (list Z) :=
     match U, rs with
     | [], _ => Ok []
     | i :: u, r :: rs' => let* mi := nthZ msgs i in let* t := resp_idx rs' msgs ch u in Ok ((r + ch * mi) :: t)
     | _ :: _, [] => Panic
     end.
   (* prod_k bases[U_k] ^ exps[k] *)
-  Fixpoint prod_sel (bases exps : list Z) (n : Z) (U : list N) (acc : Z) : outcome Z :=
+  Fixpoint prod_sel (bases exps : list Z) (n : Z) (U : list N) (acc : Z) {struct U} : outcome Z :=
     match U, exps with
     | [], _ => Ok acc
     | i :: u, x :: xs => let* ai := nthZ bases i in let* y := pow_mod ai x n in prod_sel bases xs n u (acc * y)
